@@ -22,6 +22,8 @@ path "rec/kv/*" { capabilities = ["read", "create", "update", "list"] }
 path "rec/kv/denied" { capabilities = ["deny"] }
 path "rec/lease/*" { capabilities = ["read"] }
 path "auth/token/create" { capabilities = ["update", "sudo"] }
+path "ns1/rec/kv/*" { capabilities = ["read", "create", "update", "list"] }
+path "ns1/rec/lease/*" { capabilities = ["read"] }
 `
 
 var c19Kinds = []string{"read", "write", "denied", "lease", "lookup", "create"}
@@ -52,6 +54,16 @@ func c19Do(s *Sys, tok, kind string, i int) c19Result {
 				r.secret = id
 			}
 		}
+	case "ns-read":
+		// the request addresses a mount of the child namespace with a token of the parent
+		resp, err = s.Req(tok, logical.ReadOperation, "ns1/rec/kv/a", nil)
+	case "ns-lease":
+		resp, err = s.Req(tok, logical.ReadOperation, "ns1/rec/lease/x", nil)
+		if OK(resp, err) && resp != nil && resp.Data != nil {
+			if id, ok := resp.Data["id"].(string); ok {
+				r.secret = id
+			}
+		}
 	case "denied-seal":
 		// sys/seal is not routed through handleRequest: Core.SealWithRequest checks
 		// the token itself (the policy does not grant it, so the server stays up)
@@ -76,13 +88,24 @@ func c19Do(s *Sys, tok, kind string, i int) c19Result {
 	return r
 }
 
-func c19Image(t *testing.T, n int) (*Image, string) {
+func c19Image(t *testing.T, n int) (*Image, string) { return c19ImageShape(t, n, "") }
+
+// shape "": a token with policy p19 and a ttl; shape "root-nottl": a use-limited
+// token with the root policy and no ttl (its lease is filed as non-expiring).
+func c19ImageShape(t *testing.T, n int, shape string) (*Image, string) {
 	s := Build(t, Options{})
 	defer s.Close()
 	s.Mount("rec/", "rec")
 	s.WritePolicy("p19", c19Policy)
 	s.Must(s.Req(s.Root, logical.UpdateOperation, "rec/kv/a", map[string]interface{}{"value": "A"}))
-	tok := s.CreateToken(s.Root, map[string]interface{}{"policies": []string{"p19"}, "num_uses": n, "ttl": "1h"})
+	s.Must(s.Req(s.Root, logical.UpdateOperation, "sys/namespaces/ns1", nil))
+	s.Must(s.Req(s.Root, logical.UpdateOperation, "ns1/sys/mounts/rec", map[string]interface{}{"type": "rec"}))
+	s.Must(s.Req(s.Root, logical.UpdateOperation, "ns1/rec/kv/a", map[string]interface{}{"value": "A"}))
+	data := map[string]interface{}{"policies": []string{"p19"}, "num_uses": n, "ttl": "1h"}
+	if shape == "root-nottl" {
+		data = map[string]interface{}{"policies": []string{"root"}, "num_uses": n}
+	}
+	tok := s.CreateToken(s.Root, data)
 	return s.Image(), tok
 }
 
@@ -229,7 +252,8 @@ func TestVerifC19(t *testing.T) {
 		for _, k := range rp.Params["kinds"].([]interface{}) {
 			kinds = append(kinds, k.(string))
 		}
-		img, tok := c19Image(t, n)
+		shape, _ := rp.Params["shape"].(string)
+		img, tok := c19ImageShape(t, n, shape)
 		if os.Getenv("VERIF_REPEAT") != "" {
 			seen := map[string]int{}
 			for i := 0; i < 30; i++ {
@@ -280,6 +304,35 @@ func TestVerifC19(t *testing.T) {
 			params := map[string]interface{}{"n": n, "kinds": kinds}
 			name := fmt.Sprintf("final:n=%d:%s", n, strings.Join(kinds, "+"))
 			exploreScenario(res, "c19", name, params, c19Body(t, img, tok, n, kinds), 1, false, &item)
+		}
+		// the final use (and the uses before it) address a mount of a child
+		// namespace with the parent namespace's token
+		for _, lead := range []string{"lease", "ns-lease"} {
+			for _, final := range []string{"ns-read", "ns-lease", "read"} {
+				if n == 1 && lead != "lease" || lead == "lease" && final == "read" {
+					continue
+				}
+				var kinds []string
+				for i := 0; i < n-1; i++ {
+					kinds = append(kinds, lead)
+				}
+				kinds = append(kinds, final)
+				params := map[string]interface{}{"n": n, "kinds": kinds}
+				name := fmt.Sprintf("final-ns:n=%d:%s", n, strings.Join(kinds, "+"))
+				exploreScenario(res, "c19", name, params, c19Body(t, img, tok, n, kinds), 1, false, &item)
+			}
+		}
+		// a use-limited token that otherwise never expires (root policy, no ttl)
+		rimg, rtok := c19ImageShape(t, n, "root-nottl")
+		for _, final := range []string{"read", "lease", "lookup"} {
+			var kinds []string
+			for i := 0; i < n-1; i++ {
+				kinds = append(kinds, "lease")
+			}
+			kinds = append(kinds, final)
+			params := map[string]interface{}{"n": n, "kinds": kinds, "shape": "root-nottl"}
+			name := fmt.Sprintf("final-root:n=%d:%s", n, strings.Join(kinds, "+"))
+			exploreScenario(res, "c19", name, params, c19Body(t, rimg, rtok, n, kinds), 1, false, &item)
 		}
 	}
 	for n := 1; n <= maxN; n++ {
